@@ -140,6 +140,8 @@ def _is_discr_of_self_constraints(x):
     x = strip(x)
     if isinstance(x, tuple) and x[0] == 'discr':
         base = strip(x[1])
+        while isinstance(base, tuple) and base[0] == 'call' and cname(base[1]) in ('Option::as_ref',):
+            base = strip(base[2])
         return isinstance(base, tuple) and base[0] == 'fld' and base[2] == 'constraints' and util.is_param(base[1], 1)
     return False
 
